@@ -54,7 +54,7 @@ func cfg(tier string) tierCfg {
 	if tier == "thorough" {
 		return tierCfg{sealed: 480, allBytes: true, roundtrip: 6000, questions: 6000, entropy: 600, freshKeys: 6}
 	}
-	return tierCfg{sealed: 16, allBytes: false, roundtrip: 200, questions: 260, entropy: 40}
+	return tierCfg{sealed: 16, allBytes: false, roundtrip: 1900, questions: 260, entropy: 40}
 }
 
 func (d *D) Count(tier string) int {
@@ -83,6 +83,8 @@ func (d *D) keys() []Key {
 	}
 	return d.Keys
 }
+
+var lastBytes = []byte{'\n', '\t', '\r', 0x01, 0x02, 0x08, 0x0f, 0x10, 0x00, ' ', 0x7f, 0x80, 0xff, 'a'}
 
 var answerPool = []string{"a", "c", "a,b", "b, d ,e", "hi", "print \"hi\"\n", "é", "日本語", "𝄞", "\x00", "a\x00b", "\xff\xfe", ": yaml", "- x", "'q'", "#c", " ", "\n", "\t\ttabs", "z"}
 
@@ -167,7 +169,22 @@ func (d *D) Base(idx int, ctx *core.Ctx) *core.Scenario {
 		setPlain(sc, plain)
 	case idx < c.sealed+c.roundtrip:
 		sc.Kind = "roundtrip"
-		setPlain(sc, answer(r))
+		if k := idx - c.sealed; k < len(lastBytes)*64 && k%2 == 0 || k < 2*len(lastBytes)*64 && c.roundtrip > 3000 {
+			// systematic: every length 1..64 (block boundaries of the cipher included)
+			// with every interesting final byte (line ends, low bytes that look like
+			// padding counts, NUL, high bytes)
+			k /= 2
+			if c.roundtrip > 3000 {
+				k = idx - c.sealed
+			}
+			k %= len(lastBytes) * 64
+			n := 1 + k/len(lastBytes)
+			b := []byte(strings.Repeat("print \"cookies and coding\" ", 4)[:n])
+			b[n-1] = lastBytes[k%len(lastBytes)]
+			setPlain(sc, string(b))
+		} else {
+			setPlain(sc, answer(r))
+		}
 	case idx < c.sealed+c.roundtrip+c.entropy:
 		sc.Kind = "entropy"
 		setPlain(sc, answer(r))
